@@ -46,7 +46,12 @@ class SearchingRetort(BaseRetort, Provider, ABC):
         # The call cache is shared by all searches and can hold closures with not yet bound recursion stubs,
         # so concurrent searches inside one retort must be serialized
         with self._provide_lock:
-            return self._create_mediator(request).provide(request)
+            try:
+                return self._create_mediator(request).provide(request)
+            except BaseException:
+                # failed search can leave closures with recursion stubs that will never be bound
+                self._call_cache.clear()
+                raise
 
     def get_request_handlers(self) -> Sequence[tuple[type[Request], RequestChecker, RequestHandler]]:
         def retort_request_handler(mediator, request):
